@@ -22,6 +22,11 @@ class ViolationFound(Exception):
     pass
 
 
+class StopSearch(KeyboardInterrupt):
+    """Raised inside the Hypothesis test to abort shrinking once the guard time is used up (Hypothesis re-raises
+    KeyboardInterrupt immediately); the best failing case recorded so far is reported."""
+
+
 def failure(kind, site, msg, measured=None, tol=None, **sig):
     f = {"kind": kind, "site": site, "msg": str(msg)[:600]}
     if measured is not None:
@@ -141,6 +146,7 @@ class Stats:
         self.first_fail_time = None
         self.stopped_early = 0
         self.buckets = {}
+        self.slowest = (0.0, "")
 
     def export(self):
         return {
@@ -152,12 +158,14 @@ class Stats:
             "excluded_known": dict(self.excluded_known),
             "max_ratio": self.max_ratio,
             "stopped_early": self.stopped_early,
+            "slowest": self.slowest,
             "violations": [{"case": c, "failures": f} for (_, c, f) in self.buckets.values()],
         }
 
 
 def execute(mod, case, stats, known):
     """Run one case; record statistics; return the list of failures not covered by a known finding."""
+    t_case = time.time()
     try:
         res = mod.run_case(case)
     except (HarnessError, KeyboardInterrupt):
@@ -170,6 +178,9 @@ def execute(mod, case, stats, known):
         res = CaseResult(nontrivial=True, labels=["unexpected_exception"])
         res.fail("unexpected_exception", site, "%s: %s" % (type(e).__name__, e), exc=type(e).__name__)
     stats.evaluations += 1
+    dt = time.time() - t_case
+    if dt > stats.slowest[0]:
+        stats.slowest = (dt, canon(case)[:600])
     for lab in res.labels:
         stats.labels[lab] += 1
     stats.inconclusive += res.inconclusive
@@ -203,6 +214,10 @@ def worker(args):
     (prop, tier, k, nworkers, seed, enum_cases, regress, n_examples, t_end, shrink_guard) = args
     out = {"k": k}
     stats = Stats()
+    t_start = time.time()
+    if os.environ.get("VF_STACKS"):
+        import faulthandler
+        faulthandler.dump_traceback_later(25, repeat=True, file=open("/tmp/vf_stack_%d.txt" % k, "w"))
     try:
         mod = importlib.import_module("vf.props.%s" % prop.lower())
         known = load_known(prop)
@@ -222,11 +237,12 @@ def worker(args):
 
             hseed = int(hashlib.sha256(("%s:%s:%s" % (seed, prop, k)).encode()).hexdigest()[:12], 16)
             strat = mod.case_strategy(tier)
+            use_target = bool(getattr(mod, "USE_TARGET", False))
 
             @hypothesis.seed(hseed)
             @settings(max_examples=n_examples, database=None, deadline=None, derandomize=False,
                       report_multiple_bugs=False, suppress_health_check=list(HealthCheck),
-                      phases=[Phase.generate, Phase.target, Phase.shrink],
+                      phases=([Phase.generate, Phase.target, Phase.shrink] if use_target else [Phase.generate, Phase.shrink]),
                       verbosity=hypothesis.Verbosity.quiet)
             @given(strat)
             def test(case):
@@ -235,9 +251,9 @@ def worker(args):
                     stats.stopped_early += 1
                     return
                 if stats.first_fail_time is not None and now - stats.first_fail_time > shrink_guard:
-                    return
+                    raise StopSearch()
                 fresh, res = execute(mod, case, stats, known)
-                if res.ratio is not None and res.ratio == res.ratio:
+                if use_target and res.ratio is not None and res.ratio == res.ratio:
                     hypothesis.target(min(float(res.ratio), 10.0))
                 if fresh:
                     raise ViolationFound()
@@ -255,10 +271,60 @@ def worker(args):
     except BaseException as e:  # noqa
         out["harness_error"] = ("%s" % e) if isinstance(e, HarnessError) else "%r\n%s" % (e, traceback.format_exc()[-1500:])
     out.update(stats.export())
+    out["wall"] = time.time() - t_start
+    out["t_first_fail"] = (stats.first_fail_time - t_start) if stats.first_fail_time else None
     return out
 
 
 # ---------------------------------------------------------------------------------------------
+
+def _entry(job, conn):
+    try:
+        out = worker(job)
+    except BaseException as e:  # noqa
+        out = {"k": job[2], "harness_error": "worker crashed: %r" % (e,), "evaluations": 0, "nontrivial": [], "labels": {},
+               "samples": [], "inconclusive": 0, "excluded_known": {}, "max_ratio": 0.0, "stopped_early": 0, "violations": [],
+               "wall": 0.0, "t_first_fail": None}
+    try:
+        conn.send(out)
+        conn.close()
+    finally:
+        os._exit(0)  # skip interpreter/torch teardown in the forked child (it can stall for minutes)
+
+
+def run_jobs(jobs):
+    """One forked process per job; results come back over pipes; children leave through os._exit."""
+    import multiprocessing as mp
+    from multiprocessing.connection import wait
+
+    if len(jobs) == 1:
+        return [worker(jobs[0])]
+    ctx = mp.get_context("fork")
+    procs, conns = [], {}
+    for job in jobs:
+        parent, child = ctx.Pipe(duplex=False)
+        p = ctx.Process(target=_entry, args=(job, child), daemon=True)
+        p.start()
+        child.close()
+        procs.append(p)
+        conns[parent] = job[2]
+    results = []
+    pending = dict(conns)
+    while pending:
+        for c in wait(list(pending.keys())):
+            k = pending.pop(c)
+            try:
+                results.append(c.recv())
+            except EOFError:
+                results.append({"k": k, "harness_error": "worker %d died without a result" % k, "evaluations": 0,
+                                "nontrivial": [], "labels": {}, "samples": [], "inconclusive": 0, "excluded_known": {},
+                                "max_ratio": 0.0, "stopped_early": 0, "violations": [], "wall": 0.0, "t_first_fail": None})
+    for p in procs:
+        p.join(timeout=5)
+        if p.is_alive():
+            p.kill()
+    return results
+
 
 def load_regress(prop):
     d = os.path.join(ROOT, "replays", prop, "regress")
@@ -322,21 +388,14 @@ def run_check(prop, tier, replay=None):
     n_total = int(budget.get("examples", 0) * scale)
     wall = budget.get("wall_s", 120 if tier == "quick" else 1500)
     t_end = t0 + wall
-    shrink_guard = 45 if tier == "quick" else 240
+    shrink_guard = 30 if tier == "quick" else 240
     enum_all = list(mod.enumerate_cases(tier)) if hasattr(mod, "enumerate_cases") else []
     regress = load_regress(prop)
     jobs = []
     for k in range(nworkers):
         jobs.append((prop, tier, k, nworkers, seed, enum_all[k::nworkers], regress if k == 0 else [],
                      (n_total + nworkers - 1) // nworkers if n_total else 0, t_end, shrink_guard))
-    import multiprocessing as mp
-
-    if nworkers == 1:
-        results = [worker(jobs[0])]
-    else:
-        ctx = mp.get_context("fork")
-        with ctx.Pool(nworkers) as pool:
-            results = list(pool.imap_unordered(worker, jobs))
+    results = run_jobs(jobs)
 
     ev = 0
     nontriv = set()
@@ -401,6 +460,9 @@ def run_check(prop, tier, replay=None):
     with open(os.path.join(ROOT, "evidence", prop + ".json"), "w") as fh:
         json.dump(evidence, fh, indent=1, default=str)
 
+    if os.environ.get("VF_DEBUG"):
+        for r in sorted(results, key=lambda r: r["k"]):
+            print("  worker %2d: %5d cases %.1fs first_fail=%s slowest=%.1fs %s" % (r["k"], r["evaluations"], r["wall"], r["t_first_fail"], r.get("slowest", (0, ""))[0], r.get("slowest", (0, ""))[1] if r["wall"] > 60 else ""))
     print("%s %s seed=%d: %d cases (%d distinct non-trivial, %d enumerated, %d inconclusive, %d stopped early), "
           "max measured/tol=%.3g, %.1fs" % (prop, tier, seed, ev, len(nontriv), len(enum_all), inconcl, stopped,
                                             max_ratio, wall_s))
